@@ -1652,12 +1652,12 @@ the receiver, nothing happens.
 func (r *stack) lock() {
 	if r.canMutex() {
 		if mutex, found := r.mutex(); found {
-			sc, _ := r.config()
-			_now := now()
-			sc.ldr = &_now
 			verifPoint("lock.want", r)
 			mutex.Lock()
 			verifPoint("lock.held", r)
+			sc, _ := r.config()
+			_now := now()
+			sc.ldr = &_now
 		}
 	}
 }
@@ -1670,10 +1670,10 @@ the receiver, nothing happens.
 func (r *stack) unlock() {
 	if r.canMutex() {
 		if mutex, found := r.mutex(); found {
-			mutex.Unlock()
-			verifPoint("lock.released", r)
 			sc, _ := r.config()
 			sc.ldr = nil
+			mutex.Unlock()
+			verifPoint("lock.released", r)
 		}
 	}
 }
